@@ -15,7 +15,7 @@ EXPLANATION = (
     "The real request and response parsers run on (a) fully symbolic short streams, (b) message templates with a fully "
     "symbolic 1-2 byte window at a solver-chosen offset, fed whole or cut at a solver-chosen position, (c) streams whose "
     "request line / field / chunk-size line / chunk extension / trailer has a length L with every limit symbolic in "
-    "[L-2, L+2]. Asserted on every path: only HttpProcessingError leaves feed_data/feed_eof; a start line longer than "
+    "[L-2, L+2]. Asserted on every path: only HttpProcessingError leaves feed_data/feed_eof or is stored as the error a body reader will get; a start line longer than "
     "max_line_size, a field or trailer longer than max_field_size, or more than max_headers lines is rejected; bytes retained "
     "between calls stay within the bound the limits imply; per-path step count stays within a linear budget.")
 ASSUMPTIONS = [
@@ -54,6 +54,16 @@ def _check_total(ctx, chunks, response, limits, extra=None, eof=True, expect=Non
         frames = [f for f in tb if "/aiohttp/" in f.filename]
         where = frames[-1].name if frames else "?"
         key = f"escape:{type(r.escaped).__name__}@{where}"
+    # what a body reader will raise is part of the answer: only protocol errors there either
+    if key is None:
+        from aiohttp.http_exceptions import HttpProcessingError
+
+        for _m, payload in r.msgs:
+            pexc = getattr(payload, "_exception", None)
+            if pexc is not None and not isinstance(pexc, HttpProcessingError):
+                parts.append(False)
+                key = f"payload-fails-with-non-protocol-error:{type(pexc).__name__}"
+                break
     bound = _retained_bound(limits)
     parts.append(r.retained_max <= bound)
     if key is None and isinstance(r.retained_max, int) and isinstance(bound, int) and r.retained_max > bound:
